@@ -4,7 +4,7 @@
     plus the three float primitives the code uses beyond it (signum, max, the default epsilon of
     approx::abs_diff_eq).  Run with B64_ops against the Rust f64 implementation bit for bit,
     reasoned about with R_ops.  Definitions only. *)
-From Coq Require Import List NArith Bool Reals Floats.
+From Coq Require Import List NArith ZArith Bool Reals Floats SpecFloat.
 From LinfaVerif Require Import Common.Num Common.NdSum.
 Import ListNotations.
 
@@ -27,6 +27,19 @@ Definition b64_max (a b : float) : float :=
   if PrimFloat.eqb a a then (if PrimFloat.eqb b b then (if PrimFloat.ltb a b then b else a) else a) else b.
 Definition B64X : FloatX float :=
   {| fx_signum := b64_signum; fx_max := b64_max; fx_eps := 0x1p-52%float |}.
+
+(** the same primitives for binary32 (SpecFloat at precision 24, Common/B32.v) *)
+Definition b32_signum (x : spec_float) : spec_float :=
+  match x with
+  | S754_nan => S754_nan
+  | S754_zero s | S754_infinity s | S754_finite s _ _ =>
+      S754_finite s 8388608 (-23)
+  end.
+Definition b32_is_nan (x : spec_float) : bool := match x with S754_nan => true | _ => false end.
+Definition b32_max (a b : spec_float) : spec_float :=
+  if b32_is_nan a then b else if b32_is_nan b then a else if SFltb a b then b else a.
+Definition B32X : FloatX spec_float :=
+  {| fx_signum := b32_signum; fx_max := b32_max; fx_eps := S754_finite false 8388608 (-46) |}.
 
 Section EN.
 Context {F : Type} (o : NumOps F) (fx : FloatX F).
@@ -233,7 +246,9 @@ Definition duality_gap_mtl (cols : list vec) (Y W R : list vec) : gap_info :=
   let branch (scaled : bool) : F * F :=
     let '(c, g0) :=
       if scaled then
-        let c := l1_reg / dn in
+        (* (the implementation takes this branch only for dn > l1_reg >= 0; as the "other" branch with
+           dn = 0 = l1_reg it stands for an implementation-side dn that is tiny but not zero, where c = 0) *)
+        let c := if eqb o dn f0 then f0 else l1_reg / dn in
         let a2 := (r2 * c) * c in
         (c, half * (r2 + a2))
       else (f1, r2) in
@@ -402,3 +417,31 @@ Definition group_ok (G Wj : list Q) (l1 e2 : Q) : bool :=
     let rhs := qmul (qmul 4 (qmul l1 l1)) (qmul gw gw) in
     Qle_bool a 0 && (Qle_bool 0 gw || Qle_bool rhs lhs)
     || Qle_bool 0 gw && Qle_bool lhs rhs.
+
+(** multi-task checker.  [Ys]: the t target columns with their intercepts already subtracted; [Ws]: the t
+    coefficient vectors (columns of the hyperplane matrix); the rows W_j are obtained by transposition *)
+Fixpoint qtrans (p : nat) (M : list (list Q)) : list (list Q) :=
+  match p with
+  | O => []
+  | S p' => map (hd 0%Q) M :: qtrans p' (map (@tl Q) M)
+  end.
+Definition group_ok_c (C Wj : list Q) (l1 l2 e2 : Q) : bool :=
+  group_ok (map (fun p => qsub (fst p) (qmul l2 (snd p))) (combine C Wj)) Wj l1 e2.
+Fixpoint qcorr_tasks (cols Ys Ws : list (list Q)) : list (list Q) :=
+  match Ys, Ws with
+  | y :: Ys', w :: Ws' => map (fun c => qdot c (qresidual cols y w)) cols :: qcorr_tasks cols Ys' Ws'
+  | _, _ => []
+  end.
+Fixpoint group_flags (Cs rows : list (list Q)) (l1 l2 : Q) (e2s : list Q) : list bool :=
+  match Cs, rows, e2s with
+  | C :: Cs', r :: rows', e :: e2s' =>
+      (Nat.eqb (length C) (length r) && group_ok_c C r l1 l2 e) :: group_flags Cs' rows' l1 l2 e2s'
+  | _, _, _ => []
+  end.
+Definition mtl_ok (cols Ys Ws : list (list Q)) (l1 l2 : Q) (e2s : list Q) : bool :=
+  let p := length cols in
+  forallb (fun y => all_len (length y) cols) Ys
+  && Nat.eqb (length Ws) (length Ys) && all_len p Ws && Nat.eqb (length e2s) p
+  && Qle_bool 0 l1 && Qle_bool 0 l2 && all_nonneg e2s
+  && forallb (fun b => b) (group_flags (qtrans p (qcorr_tasks cols Ys Ws)) (qtrans p Ws) l1 l2 e2s).
+
